@@ -2191,8 +2191,18 @@ impl<'input, T: Input> Scanner<'input, T> {
     /// some contexts.
     #[allow(clippy::too_many_lines)]
     fn scan_plain_scalar(&mut self) -> Result<Token<'input>, ScanError> {
-        self.unroll_non_block_indents();
-        let indent = self.indent + 1;
+        // Inside a flow collection, the one-column guard indent that keeps the collection's
+        // continuation lines deeper than the enclosing block must stay in force until the
+        // collection ends: only look through it to compute the scalar's own indentation.
+        let indent = if self.flow_level > 0 {
+            match self.indents.last() {
+                Some(guard) if !guard.needs_block_end => guard.indent + 1,
+                _ => self.indent + 1,
+            }
+        } else {
+            self.unroll_non_block_indents();
+            self.indent + 1
+        };
         let start_mark = self.mark;
 
         if self.flow_level > 0 && (start_mark.col as isize) < indent {
